@@ -71,6 +71,37 @@ def gen_conf(rng, mode, root):
     return out
 
 
+def mutate_columns(rng, b):
+    """a step file that is still a well-formed table, but with another set of columns: one dropped
+    (from the header and from every row), renamed, duplicated, two swapped, an unknown one added"""
+    lines = b.split(b"\n")
+    if len(lines) < 2:
+        return b
+    tbl = [l.split(b",") for l in lines if l]
+    n = len(tbl[0])
+    k = rng.randrange(n)
+    strcols = [i for i, h in enumerate(tbl[0]) if h in (b"name", b"log", b"user")]
+    if strcols and rng.random() < 0.6:
+        k = rng.choice(strcols)      # the string columns: a missing one is a NULL pointer in memory
+    op = rng.choice(["drop", "drop", "drop", "rename", "rename-known", "dup", "swap", "add"])
+    if op == "drop":
+        tbl = [r[:k] + r[k + 1:] if len(r) == n else r for r in tbl]
+    elif op == "rename":
+        tbl[0][k] = rng.choice([b"nope", b"", b"Name", b"step "])
+    elif op == "rename-known":
+        tbl[0][k] = rng.choice(tbl[0])
+    elif op == "dup":
+        tbl = [r[:k] + [r[k]] + r[k:] if len(r) == n else r for r in tbl]
+    elif op == "swap":
+        j = rng.randrange(n)
+        for r in tbl:
+            if len(r) == n:
+                r[k], r[j] = r[j], r[k]
+    else:
+        tbl = [r + [b"extra" if i == 0 else b"1"] for i, r in enumerate(tbl)]
+    return b"\n".join(b",".join(r) for r in tbl) + b"\n"
+
+
 def mutate(rng, b):
     b = bytearray(b)
     for _ in range(rng.choice([1, 1, 1, 2, 3])):
@@ -141,6 +172,33 @@ def run(ctx):
             ctx.violation("%s rejected its input (exit %d) without a diagnostic" % (tool, rc), info)
         return True
 
+    # ---- systematically: each column of the step file removed in turn (header and rows), given to
+    # every reader of step files in a rotating mode
+    hdr_cols = HEADER.strip().split(b",")
+    for k in range(len(hdr_cols)):
+        rows_ = [l.split(b",") for l in step.split(b"\n") if l]
+        f = b"\n".join(b",".join(r[:k] + r[k + 1:]) for r in rows_) + b"\n"
+        open(os.path.join(bdir, "step.csv"), "wb").write(f)
+        for nm in ("env.log", "kernel.log"):
+            open(os.path.join(bdir, nm), "wb").write(b"+ trace\nsome output\n")
+        p = os.path.join(root, "c.conf")
+        for j, rmode in enumerate(MODES):
+            if (j + k) % 2:
+                continue
+            open(p, "wb").write(conf[rmode])
+            argv = ["-m", rmode, "-C", p, bdir]
+            rc, out, err = core.run_cmd([os.path.join(d, "robsd-report")] + argv, env=env, timeout=20)
+            judge("robsd-report", argv, rc, out, err, b"", {"step.csv": f})
+        argv = ["-R", "-f", os.path.join(bdir, "step.csv"), "-i", "1"]
+        rc, out, err = core.run_cmd([os.path.join(d, "robsd-step")] + argv, stdin=tmpl, env=env, timeout=20)
+        judge("robsd-step -R", argv, rc, out, err, tmpl, {"step.csv": f})
+        outdir = os.path.join(ctx.scratch, "c12html")
+        shutil.rmtree(outdir, ignore_errors=True)
+        os.makedirs(outdir)
+        argv = ["-o", outdir, "amd64:" + root]
+        rc, out, err = core.run_cmd([os.path.join(d, "robsd-regress-html")] + argv, env=env, timeout=20)
+        judge("robsd-regress-html", argv, rc, out, err, b"", {"step.csv": f})
+        kinds["column-removed"] = kinds.get("column-removed", 0) + 1
     for t in range(n):
         which = t % 6
         raw = rng.random() < 0.15
@@ -180,7 +238,7 @@ def run(ctx):
                 distinct.add((tool, mode, rc, err[-40:]))
         elif which == 2:
             # ---- step file, read
-            f = bytes(rng.randint(0, 255) for _ in range(rng.randint(0, 120))) if raw else (step if rng.random() < 0.3 else mutate(rng, step))
+            f = bytes(rng.randint(0, 255) for _ in range(rng.randint(0, 120))) if raw else (step if rng.random() < 0.3 else mutate_columns(rng, step) if rng.random() < 0.3 else mutate(rng, step))
             tm = mutate(rng, tmpl) if rng.random() < 0.5 else tmpl
             if not raw and rng.random() < 0.2:
                 # fields that refer to themselves or to each other, asked for on many lines
@@ -195,7 +253,8 @@ def run(ctx):
                 nm = rng.choice([b"env", b"kernel", b"end", b"nosuch", b"ke"])
                 argv, sel = ["-R", "-f", p, "-n", nm.decode()], "n:%s" % hexb(nm)
             rc, out, err = core.run_cmd([os.path.join(d, "robsd-step")] + argv, stdin=tm, env=env, timeout=20)
-            if judge("robsd-step -R", argv, rc, out, err, tm, {"step.csv": f}) and argv[3] == "-i" and argv[4] != "0" and b"\0" not in tm:
+            # the model's line splitting is quadratic in the line length: the very long tokens are judged on the real helper only
+            if judge("robsd-step -R", argv, rc, out, err, tm, {"step.csv": f}) and argv[3] == "-i" and argv[4] != "0" and b"\0" not in tm and len(f) + len(tm) <= ctx.n(12000, 80000):
                 reqs.append("step read %s %s %s" % (hexb(f), sel, hexb(tm)))
                 wants.append("%d %s" % (rc, hexb(out)))
                 infos.append(dict(argv=argv, file=hexb(f), template=hexb(tm)))
@@ -228,23 +287,25 @@ def run(ctx):
             flags = rng.randint(1, 15)
             opt = "-" + "".join(ch for b, ch in ((1, "F"), (2, "S"), (4, "X"), (8, "P")) if flags & b)
             rc, out, err = core.run_cmd([os.path.join(d, "robsd-regress-log"), opt] + argvf, env=env, timeout=20)
-            if judge("robsd-regress-log", [opt], rc, out, err, b"", files, allowed=(0, 1, 2)):
+            if judge("robsd-regress-log", [opt], rc, out, err, b"", files, allowed=(0, 1, 2)) and sum(len(v) for v in files.values()) <= ctx.n(12000, 80000):
                 reqs.append("rlog main %d 1 %s" % (flags, " ".join(hexb(files[k]) for k in sorted(files))))
                 wants.append("%d %s" % (rc, hexb(out)))
                 infos.append(dict(opt=opt, files={k: hexb(v) for k, v in files.items()}))
                 distinct.add(("rlog", rc, flags))
         else:
             # ---- report / regress html over a damaged invocation directory
-            f = mutate(rng, step) if rng.random() < 0.5 else step
+            r_ = rng.random()
+            f = mutate(rng, step) if r_ < 0.35 else mutate_columns(rng, step) if r_ < 0.8 else step
             open(os.path.join(bdir, "step.csv"), "wb").write(f)
             for nm in ("env.log", "kernel.log"):
                 open(os.path.join(bdir, nm), "wb").write(mutate(rng, gen_log(rng)) if rng.random() < 0.7 else bytes(rng.randint(0, 255) for _ in range(rng.randint(0, 200))))
             for nm in ("comment", "dmesg", "tags"):
                 open(os.path.join(bdir, nm), "wb").write(mutate(rng, b"cvs text\n"))
             p = os.path.join(root, "c.conf")
-            open(p, "wb").write(conf["canvas"])
+            rmode = rng.choice(MODES)
+            open(p, "wb").write(conf[rmode])
             if rng.random() < 0.5:
-                argv = ["-m", "canvas", "-C", p, bdir]
+                argv = ["-m", rmode, "-C", p, bdir]
                 rc, out, err = core.run_cmd([os.path.join(d, "robsd-report")] + argv, env=env, timeout=20)
                 if judge("robsd-report", argv, rc, out, err, b"", {"step.csv": f}):
                     distinct.add(("report", rc))
